@@ -71,7 +71,7 @@ def gappedFacts : List (String × String) :=
     ("gapped.region_result", "max_score-init_score,trace_list"),
     ("gapped.region_cut", "trace_list[:max_number]"),
     ("gapped.fill.k_range", "1,code1.shape[0]+code2.shape[0]+1"),
-    ("gapped.fill.i_min", "_min(i_min_k_1,i_min_k_2+1)"),
+    ("gapped.fill.i_min", "_min(i_min_k_1,i_min_k_2)"),
     ("gapped.fill.i_max", "_max(i_max_k_1+1,i_max_k_2+1)"),
     ("gapped.fill.i_min_clip", "_max(i_min,k-code2.shape[0])"),
     ("gapped.fill.i_max_clip", "_min(i_max,code1.shape[0])"),
@@ -113,6 +113,12 @@ def ungappedFacts : List (String × String) :=
     ("ungapped.extend.step", "matrix[code1[i],code2[i]]"),
     ("ungapped.extend.result", "max_score,i_max_score+1"),
     ("ungapped.extend.init", "-1")]
+/-- tracetable.pyx: tests and assigned maxima of `get_trace_linear` / `get_trace_affine` in source order -/
+def traceFacts : List (String × String) :=
+    [("trace.get_trace_linear.tests", "match_score>gap_left_score;match_score>gap_top_score;match_score==gap_top_score;match_score==gap_left_score;match_score>gap_top_score;match_score==gap_top_score;gap_left_score>gap_top_score;gap_left_score==gap_top_score"),
+    ("trace.get_trace_linear.maxima", "max_score=match_score;max_score=match_score;max_score=gap_top_score;max_score=match_score;max_score=match_score;max_score=gap_top_score;max_score=gap_left_score;max_score=gap_left_score;max_score=gap_top_score"),
+    ("trace.get_trace_affine.tests", "match_to_match_score>gap_left_to_match_score;match_to_match_score>gap_top_to_match_score;match_to_match_score==gap_top_to_match_score;match_to_match_score==gap_left_to_match_score;match_to_match_score>gap_top_to_match_score;match_to_match_score==gap_top_to_match_score;gap_left_to_match_score>gap_top_to_match_score;gap_left_to_match_score==gap_top_to_match_score;match_to_gap_left_score>gap_left_to_gap_left_score;match_to_gap_left_score<gap_left_to_gap_left_score;match_to_gap_top_score>gap_top_to_gap_top_score;match_to_gap_top_score<gap_top_to_gap_top_score"),
+    ("trace.get_trace_affine.maxima", "max_match_score=match_to_match_score;max_match_score=match_to_match_score;max_match_score=gap_top_to_match_score;max_match_score=match_to_match_score;max_match_score=match_to_match_score;max_match_score=gap_top_to_match_score;max_match_score=gap_left_to_match_score;max_match_score=gap_left_to_match_score;max_match_score=gap_top_to_match_score;max_gap_left_score=match_to_gap_left_score;max_gap_left_score=gap_left_to_gap_left_score;max_gap_left_score=match_to_gap_left_score;max_gap_top_score=match_to_gap_top_score;max_gap_top_score=gap_top_to_gap_top_score;max_gap_top_score=gap_top_to_gap_top_score")]
 /-- every `if … : raise X` of the public functions in source order: (condition, exception class) -/
 def guards_align_banded : List (String × String) :=
     [("notmatrix.get_alphabet1().extends(seq1.get_alphabet())ornotmatrix.get_alphabet2().extends(seq2.get_alphabet())", "ValueError"),
